@@ -162,8 +162,11 @@ def check_side(tree, text: str, table: pp.NameTable, tree_ast=None):
         return dict(status="unknown", name=str(ex), orig=pp.ast_str(a))
     except RecursionError:
         return dict(status="outside", why="unparsed: recursion depth")
-    pa, pb, n = pp.compile_pair(a, b)
-    out = dict(status="pair", a=pa, b=pb, n=n, orig=pp.ast_str(a), read=pp.ast_str(b))
+    try:
+        pa, pb, n = pp.compile_pair(a, b)
+    except pp.Outside as ex:
+        return dict(status="outside", why=f"program: {ex}")
+    out = dict(status="pair", a=pa, b=pb, n=n, orig=pp.ast_str(a)[:2000], read=pp.ast_str(b)[:2000])
     if pa != pb:
         # second-stage normal form (used only if TLC finds the as-written programs different)
         try:
@@ -171,6 +174,8 @@ def check_side(tree, text: str, table: pp.NameTable, tree_ast=None):
                 ca, cb = pp.canonical_ast(a, table), pp.canonical_ast(b, table)
             qa, qb, qn = pp.compile_pair(ca, cb)
             out["canon"] = dict(a=qa, b=qb, n=qn)
+        except pp.Outside as ex:
+            out["canon_failed"] = str(ex)
         except HardTimeout:
             out["canon_failed"] = "timeout"
         except Exception as ex:  # pylint: disable=broad-except
@@ -581,8 +586,10 @@ def replay_file(pid: str, mode: str, path: str) -> int:
         if case["kind"] == "generated":
             results = [render_generated(dict(t=case["tokens"]))]
         elif case["kind"] == "catalogue":
-            results = [r for r in render_module(case["file"])
-                       if r.get("member") == case["member"] and r.get("side") == case["side"]]
+            allr = [r for r in render_module(case["file"]) if r.get("member") == case["member"]]
+            results = [r for r in allr if r.get("side") == case["side"]]
+            if data.get("key", "").startswith("display name"):
+                results = allr
         else:
             ev = pp.bracket_events(case["text"])
             v = validate_balance(run, sc, [dict(tid=1, ev=ev)])[1]
@@ -591,6 +598,10 @@ def replay_file(pid: str, mode: str, path: str) -> int:
                 print(f"VIOLATION property={pid} replay={path}")
             return 0 if v[0] == "ACCEPT" else 1
         for r in results:
+            if data.get("key", "").startswith("display name"):
+                for key, text in r.get("badnames", ()):
+                    bad.append(f"symbol with display name {key!r} is rendered as {text!r}")
+                continue
             if r["status"] == "unknown":
                 bad.append(f"unknown name {r['name']} in {r.get('part', r.get('text'))!r}")
             elif r["status"] == "pair":
